@@ -5,7 +5,7 @@ tools/try_mutant.sh) and records, in seeded/<id>/meta.json, what the property's 
 Prints one markdown table row per seeded change."""
 import json, os, re, sys, subprocess
 ROOT = os.path.dirname(os.path.dirname(os.path.abspath(__file__)))
-log = open(sys.argv[1]).read().splitlines()
+log = open(sys.argv[1], errors="replace").read().splitlines()
 note = sys.argv[2] if len(sys.argv) > 2 else os.path.basename(sys.argv[1])
 head = subprocess.check_output(["git", "-C", "/repo", "rev-parse", "--short", "HEAD"], text=True).strip()
 cur = None; res = {}
